@@ -123,6 +123,15 @@ CLAIMED = {
         'Trusted: parso tree shapes as stated preconditions, reachability_check abstract, sorted/filter models; the '
         'end-to-end agreement of goto with the interpreter for whole programs is not decided (composition).',
         'contract-based deductive verification (PyVC, symbolic-bounded chains) + z3 lemmas', 'DESIGN.md 6/C03'),
+    'C18': (
+        'Deductive: the parent-scope walk (shared with C03: nearest scope whose body contains the node, header rule) '
+        'proved symbolic-bounded; parent() proved to be the Name of the lexically enclosing funcdef/classdef/module '
+        'with nameless (comprehension) contexts skipped (<= 2); qualified names proved equal to Python\'s __qualname__ '
+        'rule for class nesting (None inside functions); full_name = dotted module path + qualified names; shape of '
+        'Script.get_context decided on the AST.',
+        'Trusted: contexts/values abstract with pure methods, parso search_ancestor; header positions of get_context '
+        'are left unspecified (statement and upstream tests disagree there), create_context composition not decided.',
+        'contract-based deductive verification (PyVC) + AST obligation', 'DESIGN.md 6/C18'),
 }
 
 NOT_APPLICABLE = {
